@@ -64,6 +64,7 @@ def jobs(tier, seed):
     for k in range(8):
         out.append({'family': 'card-sequences', 'kind': 'cards2', 'part': (k, 8)})
     out.append({'family': 'card-arguments-of-operations', 'kind': 'cardops'})
+    out.append({'family': 'card-arguments-of-hand-evaluation', 'kind': 'handforms'})
     for n in (1, 2, 3):
         antes_all = list(product((-1, 0, 1), repeat=n))
         for a in antes_all:
@@ -437,6 +438,56 @@ def run_cards2(job, R):
     R.sample = {'cards': ['Ts', 'Ah'], 'forms': ['TsAh', 'Ts Ah', 'Ts,Ah', '10sAh', '[Card, Card]', 'generator']}
 
 
+def run_handforms(job, R):
+    """hole and board cards given to the hand evaluators (from_game / from_game_or_none) as text, spaced text, tuple, list,
+    generator, iterator or map of Card objects denote the same cards: same hand or same refusal"""
+    from itertools import combinations
+    from pokerkit.utilities import Card
+    import pokerkit.hands as PH
+    from .c05 import DECKS, TYPE_DECKS
+    shapes = {'StandardHighHand': [(2, 5), (2, 3), (7, 0)], 'StandardLowHand': [(5, 0), (2, 4)], 'GreekHoldemHand': [(2, 5), (2, 4), (2, 3)],
+              'OmahaHoldemHand': [(4, 5), (4, 3), (5, 4)], 'ShortDeckHoldemHand': [(2, 5), (2, 3)], 'EightOrBetterLowHand': [(7, 0), (2, 5)],
+              'OmahaEightOrBetterLowHand': [(4, 5), (4, 4)], 'RegularLowHand': [(7, 0), (5, 0)], 'BadugiHand': [(4, 0), (5, 0)],
+              'StandardBadugiHand': [(4, 0)]}
+    forms = [('text', lambda cs: ''.join(cs)), ('spaced', lambda cs: ' '.join(cs)), ('tuple', lambda cs: tuple(Card.parse(''.join(cs)))),
+             ('list', lambda cs: list(Card.parse(''.join(cs)))), ('generator', lambda cs: Card.parse(''.join(cs))),
+             ('iterator', lambda cs: iter(tuple(Card.parse(''.join(cs))))), ('map', lambda cs: map(lambda c: c, tuple(Card.parse(''.join(cs)))))]
+
+    def ev(T, fn, h, b):
+        try:
+            x = getattr(T, fn)(h, b)
+        except ValueError:
+            return 'ValueError'
+        return None if x is None else (tuple(map(repr, x.cards)), x.entry.index)
+
+    for t, shp in shapes.items():
+        T = getattr(PH, t)
+        d = DECKS[TYPE_DECKS[t][0]].split()[:10]
+        for h, b in shp:
+            holes = list(combinations(d, h))
+            holes = holes[::max(1, len(holes) // 12)]
+            for hole in holes:
+                rest = [c for c in d if c not in hole]
+                boards = list(combinations(rest, b))
+                boards = boards[::max(1, len(boards) // 6)] + ([tuple(reversed(boards[-1]))] if b else [])
+                for board in boards:
+                    for fn in ('from_game', 'from_game_or_none'):
+                        ref = ev(T, fn, ''.join(hole), ''.join(board))
+                        R.classes.add(('handform', t, ref is None or ref == 'ValueError'))
+                        for (hn, hf), (bn, bf) in product(forms, forms):
+                            if hn != 'text' and bn != 'text' and hn != bn:
+                                continue
+                            R.evals += 1
+                            try:
+                                got = ev(T, fn, hf(hole), bf(board))
+                            except Exception as exc:
+                                got = f'{type(exc).__name__}: {exc}'
+                            if got != ref:
+                                R.viol.append(V('hand-evaluation-form', f'{t}.{fn}(hole {"".join(hole)} as {hn}, board {"".join(board)} as {bn}) gives {got}, '
+                                                f'as text {ref}', {'type': t, 'hole': hole, 'board': board, 'forms': (hn, bn)}, f'{t}/{hn}/{bn}'))
+    R.sample = {'type': 'GreekHoldemHand', 'hole': 'generator of Card', 'board': 'text'}
+
+
 def run_cardops(job, R):
     """card arguments of State operations in every form lead to the same state"""
     from pokerkit.utilities import Card
@@ -625,6 +676,9 @@ def run_arith(job, R):
             R.classes.add(('divmod', kind, amt % d == 0))
             if not close(q * d + r, a):
                 R.viol.append(V('divmod-sum', f'divmod({a!r}, {d}) = ({q!r}, {r!r}): parts add up to {q * d + r!r}', {'amount': repr(a), 'divisor': d}, kind))
+            if kind != 'int' and not (close(r, conv(0)) and close(q * d, a)):
+                R.viol.append(V('divmod-equal-shares', f'divmod({a!r}, {d}) = ({q!r}, {r!r}): chips that are not whole numbers are shared exactly, '
+                                f'nothing should be left over', {'amount': repr(a), 'divisor': d}, kind))
             if exact and (r < 0 or (kind == 'int' and not (0 <= r < d))):
                 R.viol.append(V('divmod-remainder', f'divmod({a!r}, {d}) remainder {r!r}', {'amount': repr(a), 'divisor': d}, kind))
         if kind == 'int':
@@ -675,7 +729,7 @@ class R_:
 
 
 RUN = {'values': run_values, 'stateforms': run_stateforms, 'gameforms': run_gameforms, 'cards1': run_cards1,
-       'cards2': run_cards2, 'cardops': run_cardops, 'layout': run_layout, 'layout-scalar': run_layout_scalar, 'arith': run_arith, 'gamereuse': run_gamereuse}
+       'cards2': run_cards2, 'cardops': run_cardops, 'layout': run_layout, 'layout-scalar': run_layout_scalar, 'arith': run_arith, 'gamereuse': run_gamereuse, 'handforms': run_handforms}
 
 
 def run_job(job):
